@@ -48,9 +48,9 @@ def fault_specs(ctx):
     for s, o in zip(base, bobs):
         specs.append(s)
         meta.append({"client": s["client"], "cb": s["cb"], "fault": None, "at": None, "obs": o})
-    faults = ["eof", "reset", "writeerr", "garbage_eof", "refuse3_eof"]
+    faults = ["eof", "reset", "writeerr", "garbage_eof", "refuse3_eof", "refuse7_reset"]
     if thorough:
-        faults += ["refuse7_reset", "drainerr"]
+        faults += ["drainerr"]
     inj = []
     for s, o in zip(base, bobs):
         if o.get("spin") or not o.get("npos"):
@@ -60,13 +60,17 @@ def fault_specs(ctx):
         npos = o["npos"]
         fl = list(faults) + (["sorry"] if s["client"] == "ebyte" and s["cb"] == "ret" else [])
         for f in fl:
-            if f == "sorry":        # 30 s sleep before the client gives up the connection: longer recovery tail
-                s = dict(s)
-                s["script"] = s["script"][:-len(vloop.RECOVERY_TAIL)] + [["run", 45.0], ["frames", 1], ["run", 0.5]]
+            sf = s
+            if f in ("sorry", "refuse7_reset"):   # 30 s sleep / 35.5 s of back-off before the link is up again: longer recovery tail
+                sf = dict(s)
+                sf["script"] = s["script"][:-len(vloop.RECOVERY_TAIL)] + [["run", 45.0], ["frames", 1], ["run", 0.5]]
+                sf["settle"] = 50.0
             # quick: the slow-callback family and the long-refusal family at every second position
             stride = 1 if (thorough or (s["cb"] == "ret" and f != "refuse3_eof")) else 2
+            if f == "refuse7_reset" and not thorough:      # delays 0.5 .. 8, 10, 10 s: reaches the cap
+                stride = 4
             for at in range(0, npos + 1, stride):
-                sp = dict(s)
+                sp = dict(sf)
                 sp["inject"] = {"at": at, "ops": vloop.FAULTS[f]}
                 inj.append((sp, {"client": s["client"], "cb": s["cb"], "fault": f, "at": at}))
     iobs = vloop.run_batch([dict(sp) for sp, _ in inj], _repo(), wall=6, procs=3)
@@ -88,6 +92,53 @@ def _short(spec, m):
     return {"client": m["client"], "cb": m["cb"], "fault": m["fault"], "at": m["at"]}
 
 
+def _client_wait():
+    """the `wait=` object AsyncIOClient.connect() really hands to tenacity (captured in-process, no connection is made)"""
+    import asyncio
+    try:
+        import nmea2000.ioclient as io
+        got = {}
+
+        class Capture:
+            def __init__(self, **kw):
+                got.update(kw)
+
+            def __aiter__(self):
+                return self
+
+            async def __anext__(self):
+                raise StopAsyncIteration
+
+        async def go():
+            orig = io.AsyncRetrying
+            io.AsyncRetrying = Capture
+            try:
+                c = io.EByteNmea2000Gateway("gw.invalid", 1)
+                t = asyncio.ensure_future(c.connect())
+                await asyncio.wait_for(t, 1.0)
+                await c.close()
+                await asyncio.sleep(0)
+            finally:
+                io.AsyncRetrying = orig
+        loop = asyncio.new_event_loop()
+        try:
+            loop.run_until_complete(go())
+            for t in asyncio.all_tasks(loop):
+                t.cancel()
+            loop.run_until_complete(asyncio.sleep(0))
+        finally:
+            loop.close()
+        w = got.get("wait")
+        if w is None or got.get("stop") is None:
+            return None, None
+        import tenacity
+        if got["stop"] is not tenacity.stop_never:
+            return w, f"captured from AsyncIOClient.connect(); stop={got['stop']!r} is NOT stop_never"
+        return w, "captured from AsyncIOClient.connect() (stop=stop_never)"
+    except Exception:  # noqa: BLE001
+        return None, None
+
+
 def correspond(ctx):
     reports = []
     # ---- corr_retry: the real wait_exponential for attempt numbers 1..5000
@@ -95,7 +146,10 @@ def correspond(ctx):
 
     class RS:
         attempt_number = 1
-    w = wait_exponential(multiplier=0.5, max=10)
+    w, src = _client_wait()
+    if w is None:
+        w, src = wait_exponential(multiplier=0.5, max=10), "constructed here (the client's retry object could not be captured)"
+        ctx.notes.append("corr_retry: " + src)
     ks = list(range(1, 5001))
     cases, raw = [], []
     for k in ks:
@@ -113,7 +167,10 @@ def correspond(ctx):
              distinct_nontrivial=len(ks), failing_cases=[{"attempt": raw[i][0], "impl_half_seconds": raw[i][1]}
                                                          for i in r["failing"][:20]],
              samples=[{"attempt": k, "half_seconds": v} for k, v in raw[:7]],
-             distribution={"attempts": "1..5000 (every k >= 1026 takes the OverflowError branch)"})
+             distribution={"attempts": "1..5000 (every k >= 1026 takes the OverflowError branch)", "wait_object": src})
+    if "NOT stop_never" in src:
+        r["failing"] = list(r["failing"]) + [-1]
+        r["failing_cases"].append({"stop": src})
     reports.append(r)
     # ---- corr_client_lts
     specs, meta = _runs(ctx)
@@ -201,6 +258,12 @@ def judge(o, spec):
                 if [s for t, s in status if t < vt - 1e-9][-1:] == [1]:
                     return {"key": f"recover:{what}:not-reported", "what": f"{c}: {what} at t={vt:.2f} on a connected client "
                                                                           f"was not followed by DISCONNECTED then CONNECTED: {o['status']}"}
+        for vt, wid, what, state, current in o.get("wfaults") or []:
+            # a failing write / drain of send() on the current link of a CONNECTED client must be reported as well
+            if state == 1 and current and 0 not in [s for t, s in status if t >= vt - 1e-9]:
+                return {"key": "recover:write-error:not-reported",
+                        "what": f"{c}: {what} error in send() at t={vt:.2f} on a connected client was not followed by "
+                                f"DISCONNECTED: {o['status']}"}
         # new frames after the recovery are delivered (the tail feeds one frame 0.5 s before the end)
         t_tail = o["vt_end"] - float(spec.get("settle", 35.0)) - 0.5
         if not any(t >= t_tail - 1e-6 for t, _ in o["rcb"]):
